@@ -3,16 +3,18 @@ CFG = {
     "cmd": "c05",
     "batches": lambda tier, seed: [("exhaustive", "-mode exhaustive -tier %s" % tier),
                                    ("random", "-mode random -tier %s" % tier),
-                                   ("cascade", "-mode cascade -tier %s" % tier)],
+                                   ("cascade", "-mode cascade -tier %s" % tier),
+                                   ("maxdeg", "-mode maxdeg -tier %s" % tier)],
     "signatures": {},
-    "rule": "3 implementations (indexed binary/binomial/Fibonacci) x min/max comparator. exhaustive: every history over "
+    "rule": "3 implementations (indexed binary/binomial/Fibonacci) x 5 comparators (library -1/0/1 min and max; magnitude-returning a-b, 3(a-b), b-a). exhaustive: every history over "
             "{Insert, ChangeKey, DeleteIndex (valid indices and -1, cap, cap+3), Delete, DeleteAll} up to the length bound at "
             "capacity 3 (keys 1..3) and capacity 1, plus valid-index alphabets at capacity 3 and the sparse index set {1,3} at "
             "capacity 4; each followed by the full query battery (Size, IsEmpty, Peek, layout, ContainsIndex/PeekIndex for all "
             "i in -1..cap+3, ContainsKey, ContainsValue) and a drain by Delete. random: capacities 1..10 (and 13..40), sparse "
             "index pools, 1/14 invalid indices, duplicate-heavy and wide key ranges, mixed / fill-then-churn / delete-heavy "
             "phases up to 200 steps. cascade: fill, one Delete, then key decreases below the minimum / DeleteIndex of deep nodes "
-            "(marks, cascading cuts, promote/demote chains). Every result is refereed by the extracted specification "
+            "(marks, cascading cuts, promote/demote chains). maxdeg: indexedFibonacci.maxDegree (float) against the model's exact value for "
+            "n <= 30000, around every Fibonacci/Lucas number and random n <= 10^6 (all n <= 10^6 in the thorough tier). Every result is refereed by the extracted specification "
             "(api) and compared exactly with the extracted model incl. the hook layout (fidelity). A case is non-trivial when "
             "at least two successful ChangeKey/DeleteIndex happened on a heap holding >= 3 entries; distinct = distinct case lines.",
     "assumptions": ["keys and values are Go ints below 2^62 (no arithmetic is done on them); comparator is "
@@ -20,5 +22,6 @@ CFG = {
                     "the model reaches a node through its unique index label where the Go code follows nodes[i]; "
                     "nodes[] is reduced to its non-nil flags (the hook dump checks nodes[index] == node on every layout)",
                     "math.Log(n)/math.Log(phi) of indexedFibonacci.maxDegree is modelled by the exact value "
-                    "1 + max{d | phi^d <= n}; agreement is exercised for n <= 40 only"],
+                    "1 + max{d | phi^d <= n} (C05_max_degree_bound is proved about that value); agreement of the float "
+                    "expression is swept for n <= 10^6 by the maxdeg batch, not proved"],
 }
